@@ -3,25 +3,23 @@
 \*   Op op t low0 parked0 res low1 size1 slots1     op: "put" (token t ready) | "new" (token assigned here, t = the high_token before) | "next"
 \*   parked0: tokens parked before the call; slots1: for every index of the ring after the call the parked token or -1; res: put/new 1 = parked, 0 = process now;
 \*   next: 100 + token of the item handed out, 0 = none.
-\* Nothing parked is lost, moved to a wrong index or duplicated; an item is handed out exactly when its token is the next one.
+\* Nothing parked is lost or duplicated; an item is handed out exactly when its token is the next one.
 EXTENDS Integers, Sequences, FiniteSets, TLC, Json, IOUtils
 TraceLog == ndJsonDeserialize(IOEnv.TRACE)
 VARIABLES l
 Ev == TraceLog[l]
 SetOf(s) == {s[i] : i \in DOMAIN s}
-ParkedAfter(e) == {e.slots1[i] : i \in DOMAIN e.slots1} \ {-1}
-WellPlaced(e) == /\ Len(e.slots1) = e.size1
-                 /\ \A i \in DOMAIN e.slots1 : e.slots1[i] # -1 => (e.slots1[i] % e.size1 = i - 1)
-                 /\ \A i, j \in DOMAIN e.slots1 : (i # j /\ e.slots1[i] # -1) => e.slots1[i] # e.slots1[j]
-Good(e) == /\ WellPlaced(e)
-           /\ \A tk \in ParkedAfter(e) : tk > e.low1 /\ tk - e.low1 < e.size1        \* every parked token lies inside the ring's window (or two tokens would share a slot)
+\* The verdict is about items, not about the shape of the ring (which slot, which size - compared with the transcription as drift): the call answers correctly, and when
+\* the filter then runs on (every missing token arriving exactly when its turn comes) the parked items are handed out once each, in token order (drain).
+Expected(e) == IF e.op = "next" THEN SetOf(e.parked0) \ {e.low0 + 1}
+               ELSE IF e.t = e.low0 THEN SetOf(e.parked0) ELSE SetOf(e.parked0) \cup {e.t}
+Ascending(s) == \A i \in 1..(Len(s) - 1) : s[i] < s[i + 1]
+Good(e) == /\ Ascending(e.drain) /\ SetOf(e.drain) = Expected(e)
            /\ IF e.op = "next"
               THEN /\ e.low1 = e.low0 + 1
-                   /\ IF (e.low0 + 1) \in SetOf(e.parked0) THEN e.res = 100 + e.low0 + 1 /\ ParkedAfter(e) = SetOf(e.parked0) \ {e.low0 + 1}
-                      ELSE e.res = 0 /\ ParkedAfter(e) = SetOf(e.parked0)
+                   /\ IF (e.low0 + 1) \in SetOf(e.parked0) THEN e.res = 100 + e.low0 + 1 ELSE e.res = 0
               ELSE /\ e.low1 = e.low0
-                   /\ IF e.t = e.low0 THEN e.res = 0 /\ ParkedAfter(e) = SetOf(e.parked0)
-                      ELSE e.res = 1 /\ ParkedAfter(e) = SetOf(e.parked0) \cup {e.t}
+                   /\ IF e.t = e.low0 THEN e.res = 0 ELSE e.res = 1
 TInit == l = 1
 TNext == l <= Len(TraceLog) /\ ((Ev.e = "Op" /\ Good(Ev)) \/ Ev.e = "Reset") /\ l' = l + 1
 TraceSpec == TInit /\ [][TNext]_l
